@@ -1,6 +1,6 @@
 """C18 - Shutdown and failed start-up are orderly (DESIGN.md section 4, C18)."""
 import json, os
-import vf, routerfam
+import vf, xportfam, routerfam
 
 
 def keyfn(ev, inv):
@@ -28,6 +28,7 @@ def run(ctx):
     lines = open(t).read().splitlines()
     ctx.sample({"trace_excerpt": [json.loads(x) for x in lines[0:6]]})
     ctx.validate("LifecycleTrace", t, keyfn, describe=describe, timeout=600, require_events=200)
+    xportfam.quic_part(ctx, drv, "C18")
     # router level: failing listener at every position, whole-router close
     rdrv = vf.build_driver("routerdrv")
     d = os.path.dirname(ctx.path("c18", "x"))
